@@ -690,6 +690,9 @@ namespace occa {
 
   primitive primitive::div(const primitive &a, const primitive &b) {
     const int retType = (a.type > b.type) ? a.type : b.type;
+    // An integer division by zero ends the process with SIGFPE
+    OCCA_ERROR("Division by zero",
+               (retType & primitiveType::isFloat) || b.to<uint64_t>());
     switch(retType) {
       case primitiveType::bool_   : return primitive(a.to<bool>()     / b.to<bool>());
       case primitiveType::int8_   : return primitive(a.to<int8_t>()   / b.to<int8_t>());
@@ -709,6 +712,8 @@ namespace occa {
 
   primitive primitive::mod(const primitive &a, const primitive &b) {
     const int retType = (a.type > b.type) ? a.type : b.type;
+    OCCA_ERROR("Division by zero",
+               (retType & primitiveType::isFloat) || b.to<uint64_t>());
     switch(retType) {
       case primitiveType::bool_   : return primitive(a.to<bool>()     % b.to<bool>());
       case primitiveType::int8_   : return primitive(a.to<int8_t>()   % b.to<int8_t>());
